@@ -1,6 +1,7 @@
 # claims table, exec'd by gen_manifest.py
 BASE_NOTE = ('Trusted base: CPython, z3 5.1.0, the SX models of bytes/str methods, %-formatting, re (exact '
-             'backtracking matcher over the real pattern), codecs and io.BytesIO, each validated concolically '
+             'backtracking matcher over the real pattern), codecs, io.BytesIO and json (CPython\'s pure-Python decoder/encoder run '
+             'under the same instrumentation), each validated concolically '
              'against the native behaviour at the start of every run. Holds only inside the bounds listed in '
              'the evidence file.')
 
@@ -27,7 +28,8 @@ claim('C17', 'symbolic execution of the real _read_until on an interval-abstract
       'reads: returned chunks tile [pos0, d+1) exactly, the stream is left at d+1, eof flag correct. The whole reader '
       'is additionally run at byte level with forced block sizes and header paddings and symbolic diff content, and on '
       'streams already positioned at an offset > 0.',
-      BASE_NOTE + ' Searches needing more reads than the bound are cut and counted in the evidence.',
+      BASE_NOTE + ' Searches needing more reads than the bound are cut and counted in the evidence. The block-size knob '
+      '(parameter or constant) is found by reflection on the current source; without one only the natural block size runs.',
       'DESIGN.md section 4, C17; 2.5')
 
 claim('C14', 'differential bounded symbolic execution: real get_unified_diff_hunks vs reference state machine REF_HUNK; inductive step extracted from the current source run from an arbitrary symbolic state (z3 LIA + QF_BV)',
@@ -45,8 +47,9 @@ claim('C01', 'bounded symbolic execution of the real DiffXWriter followed by the
       'run is fully symbolic (preamble text 1..3 code points quick / 1..4 thorough incl. BOM code points, NUL, CR/LF, '
       'surrogates; diff 1..4 / 1..5 bytes), for every own/inherited encoding of the catalogue, indent, line_endings, '
       'mimetype / diff type; plus container histories (up to 4 / 6 containers each declaring an encoding or not) with '
-      'symbolic probe preambles, and diffs following UTF-16/32 metadata. z3 decides record-by-record equality with norm().',
-      BASE_NOTE + ' Metadata is concrete (catalogue); longer histories by composition with C02/C03/C04.',
+      'symbolic probe preambles, diffs following UTF-16/32 metadata, and metadata objects containing a symbolic string of '
+      'arbitrary code points and a symbolic integer (equal as a JSON value). z3 decides record-by-record equality with norm().',
+      BASE_NOTE + ' Metadata: concrete catalogue + one symbolic string/integer inside a concrete structure; longer histories by composition with C02/C03/C04.',
       'DESIGN.md section 4, C01')
 
 claim('C10', 'z3 query over the finite transition relation read from the current source + bounded symbolic execution of the real reader on valid walks followed by a header with symbolic id bytes',
@@ -71,7 +74,8 @@ claim('C02', 'differential bounded symbolic execution: real DiffXWriter vs indep
       'For every own/inherited encoding of the catalogue, indent, line_endings, mimetype / diff type and each section id, '
       'the real writer runs on fully symbolic preamble text (1..3 quick / 1..4 thorough code points) or diff bytes '
       '(1..4 / 1..5) and z3 shows the output equals REF_WRITE byte for byte; header grammar, sorted options and '
-      'length framing are additionally checked without the reference.',
+      'length framing are additionally checked without the reference. Metadata with a symbolic string / integer is compared '
+      'with the canonical JSON serialisation of the specification.',
       BASE_NOTE + ' REF_WRITE is /verif/ref/spec.py; canonical JSON text from json.dumps.', 'DESIGN.md section 4, C02; section 3')
 
 claim('C03', 'differential bounded symbolic execution: real DiffXReader vs REF_READ on files from an independent spec-derived generator with symbolic section content; single-defect catalogue',
@@ -80,7 +84,8 @@ claim('C03', 'differential bounded symbolic execution: real DiffXReader vs REF_R
       'bytes (0..3 quick / 0..5 thorough, optionally plus the section newline) under every own/inherited encoding, '
       'indent and line_endings choice. z3 decides that the reader accepts exactly when the specification reading does '
       'and that id, level, logical line, options and content equal it. Each single-defect mutation of the catalogue '
-      'must be rejected with a DiffXParseError whose line lies inside the offending section.',
+      'must be rejected with a DiffXParseError whose line lies inside the offending section. Metadata whose JSON text has a '
+      'window of symbolic raw bytes is accepted exactly when it decodes to valid JSON, with the same value.',
       BASE_NOTE + ' REF_READ is /verif/ref/spec.py.', 'DESIGN.md section 4, C03; section 3')
 
 claim('C08', 'bounded symbolic execution of the real reader and DOM loader on concrete prefixes (every reader state / position inside a section) + fully symbolic byte tails; z3 decides exception type, line bound, message agreement',
@@ -90,8 +95,8 @@ claim('C08', 'bounded symbolic execution of the real reader and DOM loader on co
       'attributes; DiffX.from_stream on such inputs (and on headers whose option names are attribute names of the '
       'object-model classes, by reflection) raises only BaseDiffXError subclasses and always closes the stream. Valid '
       'multi-section files (UTF-8, UTF-16 with CRLF) are corrupted by a symbolic window of 1..2 bytes at every offset.',
-      BASE_NOTE + ' json.loads on undetermined symbolic text is exact on a small catalogue and otherwise assumed '
-      'invalid (paths flagged).', 'DESIGN.md section 4, C08')
+      BASE_NOTE + ' json.loads on symbolic text: CPython\'s pure-Python decoder under instrumentation (exact); a catalogue '
+      'fallback would be flagged in the evidence.', 'DESIGN.md section 4, C08; II.5c')
 
 claim('C07', 'bounded symbolic execution of the real reader on every truncation F[:p] of files with symbolic content, records compared with the intact file\'s records by z3; length perturbations',
       'For three skeleton files with a symbolic content section (1..3 bytes quick / 1..5 thorough + LF) and every cut '
@@ -115,7 +120,8 @@ claim('C09', 'inductive-step symbolic execution of one real writer call from an 
       'name with symbolic characters, text with symbolic code points, unserialisable metadata) from every valid writer '
       'state: accepted <=> the specification hierarchy allows the section; if the call raises, the stream log is '
       'unchanged and (_stack, _prev_section) are deep-equal; if accepted, only appending writes occurred and the '
-      'invariant holds again (induction over histories). Constructor and all public-API call sequences of length 4 / 6.',
+      'invariant holds again (induction over histories). Constructor and all public-API call sequences of length 4 / 6; '
+      'public-API twin runs: after any rejected call the output equals that of a writer never given that call.',
       BASE_NOTE + ' OS-level write failures are outside the claim.', 'DESIGN.md section 4, C09; Appendix A')
 
 claim('C13', 'bounded symbolic execution of the real generate_stats: diffs assembled from hunk shapes with symbolic payload/garbage bytes (QF_BV) and aggregation over symbolic integer figures (LIA), z3',
@@ -148,9 +154,10 @@ claim('C05', 'bounded symbolic execution of the full pipeline tree -> DiffXDOMWr
       'symbolic content of 1..3 code points / 1..4 bytes quick, 1..4 / 1..5 thorough; its options enumerated; the '
       'surrounding encodings and present/absent sections from a profile catalogue) are serialised and parsed back by the '
       'real code: same shape and, section by section, options and content equal to the documented normalisation; the '
-      'bytes equal REF_WRITE over the calls the tree implies. With a recording writer_cls the call sequence equals '
+      'bytes equal REF_WRITE over the calls the tree implies (file metadata with a symbolic string / integer included). '
+      'With a recording writer_cls the call sequence equals '
       'REF_DOM_CALLS and the tree is not modified.',
-      BASE_NOTE + ' Metadata concrete.', 'DESIGN.md section 4, C05')
+      BASE_NOTE, 'DESIGN.md section 4, C05')
 
 claim('C06', 'bounded symbolic execution of parse -> serialise (-> parse -> serialise) through the real object model on canonical files (writer outputs with symbolic content) and on foreign-style generated files',
       'Canonical: for every b produced by the real writer from the symbolic trees of C05, from_bytes(b).to_bytes() == b '
